@@ -3030,3 +3030,33 @@ RECIPES += [
     ("C13", "neutral", [], W, "                curlen = 1\n", "                curlen = len(arg)\n",
      "vecwrite: the length of a one-element argument taken from the argument (it is 1 on that branch)"),
 ]
+
+# ---- pass 6: DMIG form 9, the NCOL header field (writer) vs the columns the expanded reader allocates from it (C13-R3, verifier/c13_ncol.py)
+_NC = "            ncol = colids.max()\n"
+_RD_NC = "                colindex = np.arange(1, ncol + 1)\n"
+RECIPES += [
+    ("C13", "break", ["C13-R3"], B, "            form = 9\n" + _NC, "            form = 9\n",
+     "wtdmig form 9: the override is dropped, NCOL is the number of stored columns (round-5 seed P as a single edit): labels {1,2,5} -> label 5 outside 3 columns"),
+    ("C13", "break", ["C13-R3"], B, _NC, "            ncol = len(colids)\n", "wtdmig form 9: NCOL = number of labels"),
+    ("C13", "break", ["C13-R3"], B, _NC, "            ncol = colids.size\n", "wtdmig form 9: NCOL = colids.size"),
+    ("C13", "break", ["C13-R3"], B, _NC, "            ncol = colids[-1]\n", "wtdmig form 9: NCOL = last label; nothing sorts the labels (witness [5, 1, 2])"),
+    ("C13", "break", ["C13-R3"], B, _NC, "            ncol = colids.min()\n", "wtdmig form 9: NCOL = smallest label"),
+    ("C13", "break", ["C13-R3"], B, _NC, "            ncol = colids.max() - 1\n", "wtdmig form 9: NCOL one short of the largest label"),
+    ("C13", "break", ["C13-R3"], B, _RD_NC, "                colindex = np.arange(1, ncol)\n", "rddmig expanded form 9: the column index stops one short of NCOL"),
+    ("C13", "break", ["C13-R3"], B, _RD_NC, "                colindex = np.arange(ncol)\n", "rddmig expanded form 9: zero-based column index: label NCOL is not in it"),
+    ("C13", "break", ["C13-R3"], B, "            ncol = c[i][7] if form == 9 else None\n", "            ncol = c[i][3] if form == 9 else None\n",
+     "rddmig form 9: NCOL taken from the field that holds the matrix type"),
+    ("C13", "neutral", [], B, _NC, "            ncol = np.max(colids)\n", "wtdmig form 9: largest label spelled np.max"),
+    ("C13", "neutral", [], B, _NC, "            ncol = int(max(colids))\n", "wtdmig form 9: largest label spelled int(max(...))"),
+    ("C13", "neutral", [], B, _NC, "            largest = colids.max()\n            ncol = largest\n", "wtdmig form 9: largest label through a temporary"),
+    ("C13", "neutral", [], B, _NC, "            ncol = sorted(colids)[-1]\n", "wtdmig form 9: last of the sorted labels"),
+    ("C13", "neutral", [], B, _NC, "            ncol = int(np.asarray(colids).max())\n", "wtdmig form 9: largest label of the labels as an array"),
+    ("C13", "neutral", [], B, _NC, "            ncol = max(len(colids), colids.max())\n", "wtdmig form 9: never fewer columns than stored (the maximum dominates)"),
+    ("C13", "neutral", [], B, "        ncol = value.shape[1]\n\n        # determine form of matrix:\n        if colids.nlevels == 1:\n            form = 9\n" + _NC,
+     "        ncol = colids.max() if colids.nlevels == 1 else value.shape[1]\n\n        # determine form of matrix:\n        if colids.nlevels == 1:\n            form = 9\n",
+     "wtdmig: NCOL decided once by a conditional expression ahead of the form block"),
+    ("C13", "neutral", [], B, _RD_NC, "                colindex = np.array(range(1, ncol + 1))\n", "rddmig expanded form 9: the column numbers 1..NCOL from a range"),
+    ("C13", "neutral", [], B, _RD_NC, "                last = ncol + 1\n                colindex = np.arange(1, last)\n", "rddmig expanded form 9: end of the column numbers through a temporary"),
+    ("C13", "neutral", [], B, "            ncol = c[i][7] if form == 9 else None\n",
+     "            ncol = None\n            if form == 9:\n                ncol = c[i][7]\n", "rddmig: NCOL read under a statement-level test of the form"),
+]
